@@ -123,7 +123,7 @@ Ltac fin :=
 (** equality of two byte-string expressions, by length and pointwise *)
 Ltac bytes_eq :=
   apply list_ext; [ lens; lia | let i := fresh "i" in let Hi := fresh "Hi" in
-                                intros i Hi; lens; gets; splits; lens; fin ].
+                                intros i Hi; lens_in Hi; repeat (progress (gets; lens)); splits; fin ].
 
 (** ---------- the byte-array write ---------- *)
 Lemma len_wr_at f off b : 0 <= off -> len (wr_at f off b) = Z.max (len f) (off + len b).
